@@ -74,6 +74,19 @@ generated and registered); any other extra type falsifies this statement. The fu
 theorem nothing_extra_partial :
     extraIds.all (fun id => schemaApiCommented.any fun p => p.2 == id) = true := extra_partial
 
+/-! ## enumerations: the Go name of a constant is the schema constructor's -/
+
+/-- **every enum member of the schema is the Go constant named after it**: for every definition of the API
+schema whose registered representation is a value of an enum type, exactly one constant of package telegram is
+named after it (`topPeerCategoryForwardChats` ↦ `TopPeerCategoryForwardChats`: equal after dropping `.`/`_` and
+folding case), that constant carries the definition's id and is of the Go type named after the definition's
+result type. Conversely every constant of an enum type is named after a member and carries its id, and every
+case of a `String()` method returns, for an id, the name the schema gives that id. The registry theorems above
+cannot see this: two constants of one type carrying each other's ids leave the set of ids registered under the
+type as it is (facts from the source text: `Mtv.Gen.enumConsts`, `Mtv.Gen.enumStrings`, go/parser). -/
+theorem enum_constants_named :
+    schemaApiChunks.all apiEnumOk = true ∧ enumTablesOk = true := ⟨api_enum_ok, enum_tables_ok⟩
+
 /-! ## client methods -/
 
 /-- every generated client method sends a request of its function's constructor with argument i in
@@ -117,6 +130,26 @@ example :
       [⟨10, 0x46697273744d73674944⟩, ⟨10, 0x53657276657253616c74⟩, ⟨8, 0x556e697175654944⟩] = false ∧
     nameMatch ⟨10, 0x7270635f726573756c74⟩ ⟨6, 0x726573756c74⟩ ⟨3, 0x4f626a⟩ = true ∧
     nameMatch ⟨9, 0x7270635f6572726f72⟩ ⟨6, 0x726573756c74⟩ ⟨3, 0x4f626a⟩ = false := by
+  decide +kernel
+
+/-- enum constants: a member with its own constant passes; with the ids of two constants of its type exchanged
+(the registry's view — which ids are registered under the type — is unchanged) it fails, as do a missing
+constant and a second constant of the same name; a constant that is named after no member fails `enumConstOk` -/
+example :
+    let R : Registry := [⟨0x11, "telegram.Color", .enum, none, [], []⟩, ⟨0x22, "telegram.Color", .enum, none, [], []⟩]
+    let red : Def := ⟨⟨8, 0x636f6c6f72526564⟩, 0x11, ⟨2, 0x3131⟩, [], ⟨5, 0x436f6c6f72⟩, .ref ⟨5, 0x436f6c6f72⟩, false, ⟨0, 0⟩⟩
+    let cRed : BStr := ⟨8, 0x436f6c6f72526564⟩
+    let cBlue : BStr := ⟨9, 0x436f6c6f72426c7565⟩
+    let ty : BStr := ⟨5, 0x436f6c6f72⟩
+    enumMemberOk R [⟨cRed, ty, 0x11⟩, ⟨cBlue, ty, 0x22⟩] red = true ∧
+    enumMemberOk R [⟨cRed, ty, 0x22⟩, ⟨cBlue, ty, 0x11⟩] red = false ∧
+    enumMemberOk R [⟨cBlue, ty, 0x22⟩] red = false ∧
+    enumMemberOk R [⟨cRed, ty, 0x11⟩, ⟨cRed, ty, 0x11⟩] red = false ∧
+    enumConstOk R [red] ⟨cRed, ty, 0x11⟩ = true ∧
+    enumConstOk R [red] ⟨cRed, ty, 0x22⟩ = false ∧
+    enumConstOk R [red] ⟨cBlue, ty, 0x22⟩ = false ∧
+    enumStringOk R [red] ⟨ty, 0x11, ⟨8, 0x636f6c6f72526564⟩⟩ = true ∧
+    enumStringOk R [red] ⟨ty, 0x11, ⟨9, 0x636f6c6f72426c7565⟩⟩ = false := by
   decide +kernel
 
 /-- body skeletons: the generator's body passes; the same body with a look-up in front of the request
